@@ -42,6 +42,10 @@ def main():
                           "start / duration transitions with within-epoch time 0..d-1 and continuing global time / end / tune iff adaptation (with that epoch's recorded history on request) / "
                           "exactly one end_warmup immediately before the first posterior epoch",
                           timeout_s=600 if chk.tier == "quick" else 1200, env={"TYPES": ts, "NK": "2", "NH": nh, "STORE": str(store), "UPFRONT": str(up), "QG": str(qg), "WERR": ["", "k1", "k0"][qi % 3]}, signature=f"lifecycle:{ts}"))
+    s, nh, store, up = pl[0]
+    conds.append(Cond("vf.ch.h_engine", "check_lifecycle_chunks", f"lifecycle when epochs are sampled in several JIT chunks of 2 or 3 iterations (durations chunk*q, q <= 2; epoch types INITIAL,{','.join(map(str, s))}): "
+                      "within-epoch time keeps running 0..d-1 across chunks, global time continues, tune sees the whole epoch's history", timeout_s=900,
+                      env={"TYPES": ",".join(map(str, s)), "NK": "2", "NH": nh, "STORE": str(store), "UPFRONT": str(up), "QG": "0", "WERR": ""}, signature="lifecycle:multi-chunk"))
     if chk.tier == "thorough":
         for qg, (s4, nh, store, up) in enumerate([((1, 2, 3, 4), "10", 1, 2), ((2, 2, 4, 4), "01", 1, 4), ((1, 3, 4, 4), "11", 0, 1), ((3, 1, 2, 4), "10", 1, 3), ((1, 4, 4, 4), "01", 0, 0), ((2, 1, 1, 3), "11", 1, 2)]):
             qg = qg % 3
